@@ -37,3 +37,11 @@ Theorem C09_send_discloses_all_pending : forall k h flag pl d k' xk, genDataMsg 
   d_old d = oldMACKeys k /\ oldMACKeys k' = [].
 Proof. exact gen_discloses_all_pending. Qed.
 Print Assumptions C09_send_discloses_all_pending.
+
+(* over whole histories: a receiving MAC key that has been recorded as used is, at every later moment of any history of
+   receptions and sends, still recorded, or waiting to be disclosed, or has gone out in a data message that was sent *)
+From OTR Require Import Proto.ReplayProofs Proto.DiscloseProofs.
+Theorem C09_used_key_never_lost : forall evs k out key, accounted key k out ->
+  accounted key (fst (krun k evs out)) (snd (krun k evs out)).
+Proof. exact used_key_never_lost. Qed.
+Print Assumptions C09_used_key_never_lost.
